@@ -24,33 +24,35 @@ package dna
 //  * wg.Done() is called exactly once on every exit path (ghost counter wgdone of the WaitGroup);
 //  * the mutex is free at exit, never locked twice, never unlocked when free;
 //  * only cells (i,j), (j,i) of received pairs are written; both get the same value: a symmetric matrix with zero
-//    diagonal stays so (when the worker ends without error);
-//  * the shared list `uncompute` only grows, by index pairs inside the matrix; `max` never decreases, stays finite;
+//    diagonal stays so (on every path, also when model.Distance fails);
+//  * the shared list `uncompute` only grows, by off-diagonal index pairs inside the matrix; `max` never decreases, stays finite;
 //  * an error already recorded in the shared `err` is never cleared.
+// The `preserves` clauses are the shared invariant `goinv` of DistMatrix (zz_contracts_c07d_verif.go): they are the ONLY
+// preconditions (DistMatrix proves them at every go statement) and every run of the body re-establishes them.
+// N is len(outmatrix); `al` is a local of DistMatrix the worker does not capture (a constant for the worker).
 //@ func DistMatrix$2
-//@   props C08
+//@   props C08 C07
 //@   float xreal
-//@   chaninv seqpairdist : 0 <= elem_i && elem_i < ghost(N) && 0 <= elem_j && elem_j < ghost(N) && c8_pair(elem_i, elem_j)
-//@   requires wg != nil && mux != nil && model != nil && gf(locked, mux) == 0
-//@   requires c8_sq(outmatrix, ghost(N)) && c8_rows(outmatrix, ghost(N)) && c8_sym(outmatrix, ghost(N)) && c8_diag0(outmatrix, ghost(N))
-//@   requires c8_unc(uncompute, ghost(N)) && isfin(max) && fin(max) >= 0.0
+//@   chaninv seqpairdist : 0 <= elem_i && elem_i < len(outmatrix) && 0 <= elem_j && elem_j < len(outmatrix) && c8_pair(elem_i, elem_j)
+//@   preserves al != nil && model != nil && gf(locked, mux) == 0
+//@   preserves len(outmatrix) == nrows(al) && c8_sq(outmatrix, len(outmatrix)) && c8_rows(outmatrix, len(outmatrix))
+//@   preserves c8_sym(outmatrix, len(outmatrix)) && c8_diag0(outmatrix, len(outmatrix))
+//@   preserves c7d_unc(uncompute, len(outmatrix))
+//@   preserves isfin(max) && fin(max) >= 0.0
 //@   ensures gf(wgdone, wg) == old(gf(wgdone, wg)) + 1
-//@   ensures gf(locked, mux) == 0
-//@   ensures c8_sq(outmatrix, ghost(N)) && c8_rows(outmatrix, ghost(N))
-//@   ensures err == nil ==> c8_sym(outmatrix, ghost(N)) && c8_diag0(outmatrix, ghost(N))
-//@   ensures forall r, c :: 0 <= r && r < ghost(N) && 0 <= c && c < ghost(N) && !c8_pair(r, c) && !c8_pair(c, r) ==> outmatrix[r][c] == old(outmatrix[r][c])
-//@   ensures c8_unc(uncompute, ghost(N)) && len(uncompute) >= old(len(uncompute))
-//@   ensures isfin(max) && fin(max) >= old(fin(max))
+//@   ensures forall r, c :: 0 <= r && r < len(outmatrix) && 0 <= c && c < len(outmatrix) && !c8_pair(r, c) && !c8_pair(c, r) ==> outmatrix[r][c] == old(outmatrix[r][c])
+//@   ensures len(uncompute) >= old(len(uncompute))
+//@   ensures fin(max) >= old(fin(max))
 //@   ensures old(err) != nil ==> err != nil
 //@   assert_at sync.(*Mutex).Lock 1 : gf(locked, mux) == 0
 //@   modifies mem(float64), captured(DistMatrix$2.err), captured(DistMatrix$2.max), captured(DistMatrix$2.uncompute), mem(seqpairdist), gf(wgdone), gf(locked)
 //@   loop 1
 //@     invariant gf(wgdone, wg) == old(gf(wgdone, wg)) && gf(locked, mux) == 0
-//@     invariant c8_sq(outmatrix, ghost(N)) && c8_rows(outmatrix, ghost(N))
-//@     invariant c8_sym(outmatrix, ghost(N)) && c8_diag0(outmatrix, ghost(N))
-//@     invariant forall r, c :: 0 <= r && r < ghost(N) && 0 <= c && c < ghost(N) && !c8_pair(r, c) && !c8_pair(c, r) ==> outmatrix[r][c] == old(outmatrix[r][c])
-//@     invariant c8_unc(uncompute, ghost(N)) && len(uncompute) >= old(len(uncompute))
-//@     invariant isfin(max) && fin(max) >= old(fin(max))
+//@     invariant c8_sq(outmatrix, len(outmatrix)) && c8_rows(outmatrix, len(outmatrix))
+//@     invariant c8_sym(outmatrix, len(outmatrix)) && c8_diag0(outmatrix, len(outmatrix))
+//@     invariant forall r, c :: 0 <= r && r < len(outmatrix) && 0 <= c && c < len(outmatrix) && !c8_pair(r, c) && !c8_pair(c, r) ==> outmatrix[r][c] == old(outmatrix[r][c])
+//@     invariant c7d_unc(uncompute, len(outmatrix)) && len(uncompute) >= old(len(uncompute))
+//@     invariant isfin(max) && fin(max) >= old(fin(max)) && fin(max) >= 0.0
 //@     invariant old(err) != nil ==> err != nil
 
 // ---- the producer goroutine ----
@@ -71,13 +73,19 @@ package dna
 //    (rank = c8_npairs(N, i) + j - i), and without error exactly c8_npairs(N, N) = N(N-1)/2 pairs are sent:
 //    every pair i < j exactly once;
 //  * range mode: pairs (i, j) with i in [range1Min, min(range1Max, N-1)], j in [range2Min, min(range2Max, N-1)], i != j.
+// The `preserves` clauses are the shared invariant `goinv` of DistMatrix (zz_contracts_c07d_verif.go); the producer captures
+// neither the matrix nor `uncompute`, `max`, `mux`: they are constants for it and it writes none of the memory they reach.
 //@ func DistMatrix$1
-//@   props C08
+//@   props C08 C07
 //@   float xreal
 //@   chaninv seqpairdist : 0 <= elem_i && elem_i < nrows(al) && 0 <= elem_j && elem_j < nrows(al) && elem_i != elem_j && elem_model == model && sameslice(elem_weights, weights)
 //@   chaninv seqpairdist : c8_full(old(range1Min), old(range1Max), old(range2Min), old(range2Max)) ==> elem_i < elem_j && ghost(sent) == old(ghost(sent)) + c8_npairs(nrows(al), elem_i) + elem_j - elem_i
 //@   chaninv seqpairdist : !c8_full(old(range1Min), old(range1Max), old(range2Min), old(range2Max)) ==> old(range1Min) <= elem_i && elem_i <= old(range1Max) && old(range2Min) <= elem_j && elem_j <= old(range2Max)
-//@   requires al != nil && model != nil
+//@   preserves al != nil && model != nil && gf(locked, mux) == 0
+//@   preserves len(outmatrix) == nrows(al) && c8_sq(outmatrix, len(outmatrix)) && c8_rows(outmatrix, len(outmatrix))
+//@   preserves c8_sym(outmatrix, len(outmatrix)) && c8_diag0(outmatrix, len(outmatrix))
+//@   preserves c7d_unc(uncompute, len(outmatrix))
+//@   preserves isfin(max) && fin(max) >= 0.0
 //@   ensures ghost(closed) == old(ghost(closed)) + 1
 //@   ensures c8_full(old(range1Min), old(range1Max), old(range2Min), old(range2Max)) && err == nil ==> ghost(sent) == old(ghost(sent)) + c8_npairs(nrows(al), nrows(al))
 //@   modifies captured(DistMatrix$1.err), captured(DistMatrix$1.range1Max), captured(DistMatrix$1.range2Max)
